@@ -170,6 +170,10 @@ func replayFormat(args []string) int {
 	}
 	checkCuts := func(raw []byte, dump []byte) {
 		for k := 0; k < len(dump); k++ {
+			// every cut of a dump up to 6 kB; of longer ones the first and last 1500 bytes and every 61st byte between
+			if len(dump) > 6000 && k > 1500 && k < len(dump)-1500 && k%61 != 0 {
+				continue
+			}
 			o := loadAndRun(dump[:k], nil, "cut")
 			s.Extra["cuts"] = intOf(s.Extra["cuts"]) + 1
 			switch {
